@@ -633,6 +633,8 @@ def date_field(ip, t, name):
 def getattr(ip, obj, attr):
     ctx = ip.ctx
     obj = norm(ip, obj)
+    if isinstance(obj, C) and obj.py is None:
+        raise_('AttributeError', f"'NoneType' object has no attribute '{attr}'")
     if isinstance(obj, Obj):
         k = obj.kind
         if k == 'module':
